@@ -128,6 +128,58 @@ func (s *jsSpeller) operand(n *JSNode, min int, wrap bool) {
 	s.expr(n)
 }
 
+// target spells a (destructuring) assignment target.
+func (s *jsSpeller) target(n *JSNode) {
+	switch n.K {
+	case "tdefault":
+		s.target(n.Kids[0])
+		s.t("=")
+		s.operand(n.Kids[1], pAssign, true)
+	case "trest":
+		s.t("...")
+		s.target(n.Kids[0])
+	case "arrtarget":
+		s.t("[")
+		s.inBrackets(func() {
+			for i, k := range n.Kids {
+				if i > 0 {
+					s.t(",")
+				}
+				if k.K != "hole" {
+					s.target(k)
+				}
+			}
+		})
+		s.t("]")
+	case "objtarget":
+		s.t("{")
+		s.inBrackets(func() {
+			for i, k := range n.Kids {
+				if i > 0 {
+					s.t(",")
+				}
+				switch k.K {
+				case "propshort":
+					s.ident(k.Kids[0], true)
+					if len(k.Kids) > 1 {
+						s.t("=")
+						s.operand(k.Kids[1], pAssign, true)
+					}
+				case "prop":
+					s.key(k.Kids[0])
+					s.t(":")
+					s.target(k.Kids[1])
+				default:
+					s.target(k)
+				}
+			}
+		})
+		s.t("}")
+	default:
+		s.operand(n, pCall, false)
+	}
+}
+
 func (s *jsSpeller) argList(args []*JSNode) {
 	s.t("(")
 	s.inBrackets(func() {
@@ -358,34 +410,7 @@ func (s *jsSpeller) expr(n *JSNode) {
 			s.operand(k, pAssign, true)
 		}
 	case "assign":
-		switch n.Kids[0].K {
-		case "arrtarget":
-			s.t("[")
-			s.inBrackets(func() {
-				for i, k := range n.Kids[0].Kids {
-					if i > 0 {
-						s.t(",")
-					}
-					s.operand(k, pCall, false)
-				}
-			})
-			s.t("]")
-		case "objtarget":
-			s.t("{")
-			s.inBrackets(func() {
-				for i, k := range n.Kids[0].Kids {
-					if i > 0 {
-						s.t(",")
-					}
-					s.key(k.Kids[0])
-					s.t(":")
-					s.operand(k.Kids[1], pCall, false)
-				}
-			})
-			s.t("}")
-		default:
-			s.operand(n.Kids[0], pCall, false)
-		}
+		s.target(n.Kids[0])
 		s.t(n.Op)
 		s.operand(n.Kids[1], pAssign, true)
 	case "cond":
@@ -709,7 +734,7 @@ func (s *jsSpeller) stmt(n *JSNode) (needsSemi bool) {
 			s.t(n.Kids[0].Op)
 			s.pattern(n.Kids[0].Kids[0].Kids[0])
 		} else {
-			s.operand(n.Kids[0], pCall, false)
+			s.target(n.Kids[0])
 		}
 		if n.K == "forin" {
 			s.t("in")
